@@ -317,6 +317,11 @@ def _routing_consistent(ctx: Ctx, fn: FuncInfo, p) -> bool:
 
 
 # ----------------------------------------------------------------------- R2
+def _known(g, prog) -> bool:
+    from ..inventory import is_known
+    return is_known(g, prog)
+
+
 def r2(ctx: Ctx, rep: Report):
     prog, res = ctx.prog, ctx.res
     wire = ctx.memo("wire", lambda: Wire(ctx))
@@ -422,5 +427,8 @@ def r2(ctx: Ctx, rep: Report):
     # per path obligations are summarised above; add one obligation per (family, branch) for the evidence
     for famname in ("ET", "DT", "ES"):
         fn = prog.cls(famname).methods["_write_setting"]
-        for call in [n for n in ast.walk(fn.node) if isinstance(n, ast.Call) and wire.site_kind(fn, n) is not None and wire.site_kind(fn, n)[0] != "read"]:
-            rep.ok("C17.R2", "site:%s:%s" % (famname, norm(call)[:50]), fn.loc(call), "write site addressed to %s" % norm(call.args[0]))
+        from ..astutil import calls_through_helpers
+        seen_fns = [fn] + [g for g in res.reachable([fn]) if g is not fn and g.cls is not None and prog.is_subclass(fn.cls, g.cls) and not _known(g, prog)]
+        for f2 in seen_fns:
+            for call in [n for n in ast.walk(f2.node) if isinstance(n, ast.Call) and wire.site_kind(f2, n) is not None and wire.site_kind(f2, n)[0] != "read"]:
+                rep.ok("C17.R2", "site:%s:%s" % (famname, norm(call)[:50]), f2.loc(call), "write site addressed to %s" % norm(call.args[0]))
